@@ -190,14 +190,18 @@ def check_atf(case, op, i, prev, cur, dump_prev, dump_cur, width):
     target's family and no existing line changes parent"""
     if len(cur) != len(prev) + 1:
         return f"{len(cur) - len(prev)} lines added"
-    pos = None
-    for j in range(len(cur)):
-        if cur[:j] + cur[j + 1:] == prev:
-            # prefer the position whose text is the payload
-            if pos is None or cur[j].lstrip() == op[2].lstrip():
-                pos = j
-    if pos is None:
+    cands = [j for j in range(len(cur)) if cur[:j] + cur[j + 1:] == prev]
+    if not cands:
         return f"other lines changed: {cur!r} from {prev!r}"
+    # adjacent identical lines make several positions indistinguishable: prefer a position holding the payload,
+    # and among those one inside the target's family (any such reading satisfies the property)
+    good = [j for j in cands if cur[j].lstrip() == op[2].lstrip()] or cands
+    pos = good[0]
+    if dump_prev is not None:
+        fam0 = [i] + descendants(dump_prev["parents"], i)
+        inside = [j for j in good if i < j <= max(fam0) + 1]
+        if inside:
+            pos = inside[0]
     new = cur[pos]
     if new.lstrip() != op[2].lstrip():
         return f"inserted text {new!r} is not the payload {op[2]!r}"
